@@ -285,7 +285,7 @@ theorem cutIn_symm (g : Cfg) (i : Nat) (h : Symm g) : Symm (g.cutIn i) :=
 theorem deadStep_symm (g : Cfg) (i : Nat) (h : Symm g) : Symm (deadStep g i) := by
   unfold deadStep
   simp only []
-  by_cases hc : ((g.get i).node.isReturn || (g.get i).node.isAnyEntry ||
+  by_cases hc : ((g.get i).node.isReturn || (g.get i).node.isIndirectJump || (g.get i).node.isAnyEntry ||
       (g.get i).node.mightTerminate) = true
   · rw [if_pos hc]; exact h
   · rw [if_neg hc]
